@@ -94,7 +94,7 @@ def run_tlc(module: str, cfg: str, *, scratch: str, workers: int = 16, coverage:
             simulate: typing.Optional[str] = None, depth: typing.Optional[int] = None,
             seed: typing.Optional[int] = None, env: typing.Optional[dict] = None,
             timeout: int = 3600, parse_transitions: bool = True, heap: str = "8g",
-            keep_stdout: bool = False, on_line=None) -> TLCResult:
+            keep_stdout: bool = False, on_line=None, raw: bool = False) -> TLCResult:
     """
     Run TLC on /verif/spec/<module>.tla with configuration file `cfg` (absolute path).
     Returns counts and the parsed transitions printed by the `Emit` action constraint.
@@ -138,7 +138,9 @@ def run_tlc(module: str, cfg: str, *, scratch: str, workers: int = 16, coverage:
             if line.startswith('<<"TR"'):
                 if parse_transitions:
                     for m in _TR_RE.finditer(line):
-                        obj = json.loads(json.loads(m.group(1)))
+                        obj = json.loads(m.group(1))
+                        if not raw:
+                            obj = json.loads(obj)
                         if on_line is not None:
                             on_line(obj)
                         else:
